@@ -124,6 +124,8 @@ PROPS["C17"] = {
          "timeout": {"quick": 600, "thorough": 1800}},
         {"name": "c17-marshaler", "pkg": ROOT, "run": "TestVerifC17Marshaler", "instr": ["pkg/rendezvous/rotation.go|clock"],
          "timeout": {"quick": 900, "thorough": 1800}},
+        {"name": "c17-open-group", "pkg": ROOT, "run": "TestVerifC17OpenGroup", "instr": ["pkg/rendezvous/rotation.go|clock", "orbitdb.go|clock|storeForGroup"],
+         "timeout": {"quick": 900, "thorough": 1800}},
         {"name": "c17-realtime", "pkg": "pkg/rendezvous", "run": "TestVerifC17RealTime", "tiers": ("thorough",),
          "timeout": {"quick": 600, "thorough": 1800}},
     ],
